@@ -32,12 +32,12 @@ fn space_for(tier: Tier) -> (Space, usize) {
     let mut s = Space::new();
     match tier {
         Tier::Quick => {
-            s.ast("GC", 4, 64).ast("K", 4, 64);
+            s.ast("GC", 5, 64).ast("K", 4, 64);
             s.list("ladder", LADDER.len() as u64, 1);
             (s, 3)
         }
         Tier::Thorough => {
-            s.ast("GC", 5, 64).ast("K", 5, 64).ast("U", 4, 64);
+            s.ast("GC", 6, 64).ast("K", 5, 64).ast("U", 4, 64);
             s.list("ladder", LADDER.len() as u64, 1);
             (s, 4)
         }
